@@ -7,6 +7,10 @@
     cli/commands/run/context.py            : Statistic.on_scenario_finished (unique-failure map, per-label groups)
     engine/recorder.py                     : serialize_payload (base64), Request/Response.encoded_body
     core/transport.py                      : Response.__init__ (lower-cased header names), body_size, encoded_body
+    cli/commands/run/executor.py           : initialize_handlers (which writers, own queue each), _execute (start / event loop /
+                                             shutdown in finally, a handler raising), CassetteWriter.start/handle_event/shutdown,
+                                             the `while True: item = queue.get()` loops of vcr_writer / har_writer as
+                                             steps of an explicit interleaving; get_command_representation
   Text is modelled on code points (`Str = List Nat`, every element < 0x110000 — lone surrogates included, as in a
   Python `str`).  Core Lean only.
 -/
@@ -499,5 +503,141 @@ def runEvents (v : Variant) : Stat → JUnit → List Event → Option (Stat × 
     match junitStep v st' j ev with
     | none => none
     | some j' => runEvents v st' j' rest
+
+/-! ## `get_command_representation` -/
+
+/-- `sys.argv[0].endswith(("schemathesis", "st"))`, `"st " + " ".join(sys.argv[1:])` -/
+def joinSp : List Str → Str
+  | [] => []
+  | [a] => a
+  | a :: rest => a ++ 32 :: joinSp rest
+
+def commandRepr : List Str → Str
+  | [] => lit "<unknown entrypoint>"          -- (an empty argv does not occur; `sys.argv[0]` would raise)
+  | a0 :: args =>
+    if (lit "schemathesis").isSuffixOf a0 || (lit "st").isSuffixOf a0 then lit "st " ++ joinSp args
+    else lit "<unknown entrypoint>"
+
+/-! ## `_execute` with several report handlers: queues, writer threads, schedules
+
+`initialize_handlers` builds one `CassetteWriter` per enabled cassette format (VCR before HAR); every writer owns a
+`Queue` object (dataclass field) and a worker thread running `vcr_writer` / `har_writer` on that queue.  The main
+thread (`_execute`) only ever `put`s: `Initialize` from `start`, one `Process(recorder)` per `ScenarioFinished` from
+`handle_event`, `Finalize` from `shutdown` (in `finally`, i.e. also when a handler raised).  Worker threads `get`.
+Everything else is interleaving, which the model leaves to an explicit schedule. -/
+
+inductive Fmt where
+  | vcr | har
+  deriving Repr, DecidableEq
+
+/-- a queue message; `process` carries the interaction ids of the recorder, in `recorder.interactions` order -/
+inductive Msg where
+  | initialize (seed : Option Nat)
+  | process (ids : List Nat)
+  | finalize
+  deriving Repr, DecidableEq
+
+/-- what a writer appends to its file for one message -/
+inductive Chunk where
+  | preamble (seed : Option Nat)         -- `command: … recorded_with: … seed: … http_interactions:`
+  | entry (id : Nat)                     -- one interaction (`renderEntry` / `har.add_entry`)
+  deriving Repr, DecidableEq
+
+structure WState where
+  out : List Chunk
+  done : Bool                            -- the writer function returned (file closed)
+  deriving Repr, DecidableEq
+
+def WState.init : WState := ⟨[], false⟩
+
+def Msg.isFin : Msg → Bool
+  | .finalize => true
+  | _ => false
+
+/-- the body of the `while True:` loop of `vcr_writer` / `har_writer` (`har_writer` ignores `Initialize`) -/
+def chunksOf : Fmt → Msg → List Chunk
+  | .vcr, .initialize s => [.preamble s]
+  | .har, .initialize _ => []
+  | _, .process ids => ids.map .entry
+  | _, .finalize => []
+
+def consume (f : Fmt) (w : WState) (m : Msg) : WState :=
+  if w.done then w else ⟨w.out ++ chunksOf f m, m.isFin⟩
+
+/-- one `CassetteWriter`: its format and the identity of the `Queue` object its field holds (the worker thread is
+    started with the same object) -/
+structure HCfg where
+  fmt : Fmt
+  queue : Nat
+  deriving Repr, DecidableEq
+
+structure Sys where
+  queues : Nat → List Msg                -- the heap of `Queue` objects (FIFO)
+  ws : Nat → WState                      -- writer threads, by handler index
+  pc : List (Nat × Msg)                  -- what the main thread still has to `put`: (handler index, message)
+
+def Sys.init (pc : List (Nat × Msg)) : Sys := ⟨fun _ => [], fun _ => WState.init, pc⟩
+
+def upd {α : Type} (f : Nat → α) (k : Nat) (v : α) : Nat → α := fun j => if j = k then v else f j
+
+/-- the main thread performs its next `self.queue.put(...)` -/
+def stepMain (cfg : Nat → HCfg) (s : Sys) : Sys :=
+  match s.pc with
+  | [] => s
+  | (i, m) :: rest => ⟨upd s.queues (cfg i).queue (s.queues (cfg i).queue ++ [m]), s.ws, rest⟩
+
+/-- writer thread `i` performs one `queue.get()` + loop body; blocked (no change) on an empty queue -/
+def stepWorker (cfg : Nat → HCfg) (n i : Nat) (s : Sys) : Sys :=
+  if i < n ∧ (s.ws i).done = false then
+    match s.queues (cfg i).queue with
+    | [] => s
+    | m :: rest => ⟨upd s.queues (cfg i).queue rest, upd s.ws i (consume (cfg i).fmt (s.ws i) m), s.pc⟩
+  else s
+
+inductive Act where
+  | main
+  | work (i : Nat)
+  deriving Repr, DecidableEq
+
+def step (cfg : Nat → HCfg) (n : Nat) (s : Sys) : Act → Sys
+  | .main => stepMain cfg s
+  | .work i => stepWorker cfg n i s
+
+/-- an interleaving of the main thread and the writer threads -/
+def run (cfg : Nat → HCfg) (n : Nat) (sched : List Act) (s : Sys) : Sys := sched.foldl (step cfg n) s
+
+/-- an engine event as the cassette writers see it: `some ids` = `ScenarioFinished` whose recorder holds these
+    interactions, `none` = any other event -/
+abbrev Ev := Option (List Nat)
+
+def putAll (n : Nat) (m : Msg) : List (Nat × Msg) := (List.range n).map fun i => (i, m)
+
+def eventPuts (n : Nat) : Ev → List (Nat × Msg)
+  | none => []
+  | some ids => putAll n (.process ids)
+
+/-- `_execute` for `n` cassette writers: `start` for every handler, the event loop, `shutdown` in `finally`.
+    `crash = some (k, p)`: a handler placed after the first `p` cassette writers raises while handling event `k`
+    (the loop stops there; `p = 0` for `JunitXMLHandler`, `p = n` for custom handlers and the console). -/
+def mainProgram (n : Nat) (seed : Option Nat) (evs : List Ev) (crash : Option (Nat × Nat)) : List (Nat × Msg) :=
+  putAll n (.initialize seed) ++
+  ((match crash with
+    | none => evs.flatMap (eventPuts n)
+    | some (k, p) => (evs.take k).flatMap (eventPuts n) ++
+        (match evs[k]? with
+         | some e => eventPuts (min p n) e
+         | none => [])) ++
+   putAll n .finalize)
+
+/-- `initialize_handlers`: which cassette writers exist, in order -/
+inductive Report where
+  | junit | vcr | har
+  deriving Repr, DecidableEq
+
+def initCassettes (formats : List Report) : List Fmt :=
+  (if formats.contains .vcr then [Fmt.vcr] else []) ++ (if formats.contains .har then [Fmt.har] else [])
+
+/-- `queue: Queue = field(default_factory=Queue)`: the `i`-th writer gets a queue object of its own -/
+def cfgOf (fs : List Fmt) : Nat → HCfg := fun i => ⟨fs.getD i .vcr, i⟩
 
 end SV.Model.C16
